@@ -42,6 +42,17 @@ func verifB(b bool) uint32 {
 // VerifClntTags returns the number of free tags in the pool and of cached Req objects.
 func VerifClntTags(c *Clnt) (pool, cached int) { return len(c.tagpool.id), len(c.reqchan) }
 
+// verifRkind classifies a reply against its request: 1 matching R-message, 2 Rerror, 3 any other type.
+func verifRkind(t, r uint8) uint32 {
+	switch {
+	case t == r-1:
+		return 1
+	case r == Rerror:
+		return 2
+	}
+	return 3
+}
+
 var verifMu sync.RWMutex
 var verifHook func(point string, obj interface{}, a, b uint32)
 
